@@ -571,13 +571,24 @@ fn report_failure(rep: &mut Report, l: &Layout, q: &Q, o: &Outcome) {
                     }
                 }
             }
+            // direction of the contradiction (counts are compared with their own expectation,
+            // which differs for the filtered collectors)
+            let exp_range = |d: &Value| -> Option<(u64, u64)> {
+                let e = d.get("expected_count")?;
+                if let Some(n) = e.as_u64() {
+                    Some((n, n))
+                } else {
+                    let a = e.as_array()?;
+                    Some((a.first()?.as_u64()?, a.get(1)?.as_u64()?))
+                }
+            };
             let missing = v.detail.iter().any(|d| {
                 d.get("missing_ids").and_then(|x| x.as_array()).map(|a| !a.is_empty()).unwrap_or(false)
-                    || d.get("count").and_then(|c| c.as_u64()).map(|c| (c as usize) < o.must.len()).unwrap_or(false)
+                    || matches!((d.get("count").and_then(|c| c.as_u64()), exp_range(d)), (Some(c), Some((lo, _))) if c < lo)
             });
             let extra = v.detail.iter().any(|d| {
                 d.get("unexpected_ids").and_then(|x| x.as_array()).map(|a| !a.is_empty()).unwrap_or(false)
-                    || d.get("count").and_then(|c| c.as_u64()).map(|c| (c as usize) > o.may.len()).unwrap_or(false)
+                    || matches!((d.get("count").and_then(|c| c.as_u64()), exp_range(d)), (Some(c), Some((_, hi))) if c > hi)
             });
             let dir = match (missing, extra) {
                 (true, false) => "docs-missing",
